@@ -857,16 +857,17 @@ class System:
             vi, ostate = self._fwd_prop(v, i, phase, state)
             ii = self._back_prop(vi, i, phase, state)
             iters += 1
-            if np.allclose(np.array(v), np.array(vi), rtol=vtol) and np.allclose(
+            done = np.allclose(np.array(v), np.array(vi), rtol=vtol) and np.allclose(
                 np.array(i), np.array(ii), rtol=itol
-            ):
+            )
+            v, i, state = vi, ii, ostate
+            if done:
                 if not quiet:
                     pname = ""
                     if phase != "":
                         pname = "'{}': ".format(phase)
                     print("{}Tolerances met after {} iterations".format(pname, iters))
                 break
-            v, i, state = vi, ii, ostate
         if not (np.all(np.isfinite(v)) and np.all(np.isfinite(i))):
             raise ValueError("Unstable system: solution is not finite")
         return v, i, iters, state
